@@ -584,6 +584,18 @@ def gen_subst(rng, kind, general=None):
         mapping = list(range(pairs)) if nr == pairs else [rng.randrange(nr) for _ in range(pairs)]
         return {"kind": kind, "rates": [rng.uniform(0.3, 3.0) for _ in range(nr)], "freqs": rand_freqs(rng, S), "mapping": mapping,
                 "general": general}
+    if kind == "GeneralNonSymmetric" and general is None and rng.random() < 0.35:
+        # STRUCTURED, strictly positive, perfectly valid parameters: rates tied through `mapping` with equal frequencies — ordered
+        # characters (i -> i+1 at one rate, every other change at a background rate), forward / backward rates, a single rate.
+        # Such rate matrices can have repeated eigenvalues and need not be diagonalisable.
+        fam = rng.choice(["ordered", "ordered", "forward-backward", "one-rate"])
+        if fam == "ordered":
+            mapping, rates = [0, 1, 1, 0, 1, 0, 1, 1, 1, 1, 1, 1], [1.0, rng.choice([0.01, 0.2, 0.5, 1e-4])]
+        elif fam == "forward-backward":
+            mapping, rates = [0] * 6 + [1] * 6, [rng.choice([1.0, 2.0]), rng.choice([0.05, 0.5])]
+        else:
+            mapping, rates = [0] * 12, [1.0]
+        return {"kind": kind, "rates": rates, "freqs": [0.25] * 4, "mapping": mapping, "general": None, "family": fam}
     if kind == "GeneralNonSymmetric":
         S = 4 if general is None else len(general["codes"])
         pairs = S * (S - 1)
@@ -714,6 +726,10 @@ def gen_case(rng, n, topo: Node | None = None, subst=None, site=None, rooting=No
     case["use_ambiguities"] = use_amb
     if rooting == "unrooted":
         assign_lengths(rng, topo)
+        if case["subst"].get("family") and rng.random() < 0.3:   # extremely short branches (t ~ 1e-6) for the structured generators
+            for x in topo.postorder():
+                if x.length is not None:
+                    x.length *= 1e-5
         case["dates"] = None
         case["clock"] = None
     else:
@@ -815,6 +831,30 @@ def oracle_branch_times(case, t: Node):
     return out
 
 
+def expm_np(A):
+    """matrix exponential by scaling and squaring with a Taylor series (independent of torch.matrix_exp / eig)"""
+    nrm = float(np.abs(A).sum(axis=1).max())
+    sq = max(0, int(math.ceil(math.log2(nrm))) + 2) if nrm > 0 else 0
+    X = A / (2.0 ** sq)
+    E, term = np.eye(A.shape[0]), np.eye(A.shape[0])
+    for k in range(1, 15):  # ||X|| <= 1/4: the remainder is below 1e-19
+        term = term @ X / k
+        E = E + term
+    for _ in range(sq):
+        E = E @ E
+    return E
+
+
+def normalised_rate_matrix(model):
+    """Q / norm(Q), Q = subst_model.q() at the CURRENT parameter values, norm = -sum_i pi_i Q_ii (the normalisation every p_t of
+    the library uses) — the generator whose exponential the branch transition probabilities are, whichever way the code obtains them"""
+    Q = model.subst_model.q().detach().double().numpy()
+    pi = model.subst_model.frequencies.detach().double().reshape(-1).numpy()
+    if Q.ndim != 2:
+        raise ValueError("batched q()")
+    return Q / -float((np.diag(Q) * pi).sum())
+
+
 def oracle_loglik(case, model, restrict_sites=None):
     """sum over sites of log( sum over rate categories and over ALL labelings of the internal nodes of
     root frequency x branch transition probabilities x tip compatibility ), by explicit enumeration.
@@ -840,12 +880,22 @@ def oracle_loglik(case, model, restrict_sites=None):
     sites = range(len(symbols)) if restrict_sites is None else restrict_sites
     labs = np.array(list(itertools.product(range(S), repeat=len(internals))), dtype=np.int64)  # [L, I]
     Pm = {}
+    try:
+        Qn, expm_cache = normalised_rate_matrix(model), {}
+    except Exception:  # noqa: BLE001  (no usable q(): fall back to the model's own p_t)
+        Qn, expm_cache = None, {}
     for k, r in enumerate(rates):
         for x in nodes:
             if x is t:
                 continue
-            tt = torch.tensor([[times[id(x)] * r]], dtype=torch.float64)
-            Pm[(id(x), k)] = model.subst_model.p_t(tt)[0, 0].detach().numpy()
+            tval = times[id(x)] * r
+            if Qn is not None:  # own exponential of the model's generator, not the model's p_t
+                if tval not in expm_cache:
+                    expm_cache[tval] = np.eye(S) if tval == 0.0 else expm_np(Qn * tval)
+                Pm[(id(x), k)] = expm_cache[tval]
+            else:
+                tt = torch.tensor([[tval]], dtype=torch.float64)
+                Pm[(id(x), k)] = model.subst_model.p_t(tt)[0, 0].detach().numpy()
     total = 0.0
     per_site = []
     for site_i in sites:
@@ -1179,3 +1229,38 @@ def denormal_case(rng, n=256, shape="balanced", tip_states=False, target=-321.3,
             hi = mid
     out = with_scale(math.sqrt(lo * hi))
     return out, hard_pos
+
+
+def index_spellings(L, rng=None):
+    """the spelling class of SitePattern `indices` for an alignment of L columns: single ints (first, last, negative, esp. -1),
+    slices with negative start / stop / step, open ends, clamped bounds, empty pieces next to non-empty ones, repeated and mixed
+    lists.  The oracle is Python's own indexing of the list of columns."""
+    h = max(1, L // 2)
+    out = ["-1", "0", str(L - 1), str(-L), "-1,0:%d" % L, "-1,:-1", "0:%d,-1" % L, "%d,-1,0" % (L - 1), "-2,-1", "-1,-1",
+           "-%d:" % h, "%d,-%d:" % (min(3, L - 1), h), "-%d:%d" % (h, L + 5), ":-1", ":-%d" % h, "-3:-1", "-%d:-1" % L, "1:-1",
+           "::-1", "::2", "1::2", "-1::-2", "%d:0:-1" % (L - 1), "%d::-1" % (L - 1), ":", "0:%d" % (L + 9), "-99:2", "2,2,2",
+           "-2,-1,0", "::3,1::3,2::3", "0:1,-1:", "-1:,0:1", "1:1,0", "%d:%d,-1" % (L, L + 3)]
+    if rng is not None:
+        for _ in range(6):
+            toks = []
+            for _k in range(rng.randint(1, 3)):
+                if rng.random() < 0.4:
+                    toks.append(str(rng.randint(-L, L - 1)))
+                else:
+                    a = rng.choice(["", str(rng.randint(-L - 1, L + 1))])
+                    b = rng.choice(["", str(rng.randint(-L - 1, L + 1))])
+                    c = rng.choice(["", "", "2", "-1", "-2"])
+                    toks.append(f"{a}:{b}" + (f":{c}" if c else ""))
+            out.append(",".join(toks))
+    return out
+
+
+def rewritten_without_indices(case):
+    """the same data with the column selection applied by Python's own indexing and NO `indices` key (None if nothing is selected)"""
+    syms = site_symbols(case)
+    if not syms:
+        return None
+    c = dict(case)
+    c.pop("indices", None)
+    c["seqs"] = {nm: "".join(s[nm] for s in syms) for nm in case["seqs"]}
+    return c
